@@ -431,6 +431,11 @@ def _concat_of_ordered(ops) -> bool:
     return any(type(n).__name__ == "ConcatRowsNode" and any(type(s).__name__ == "OrderRowsNode" for s in n.sources) for n in _walk(ops))
 
 
+def _concat_of_unpivot(ops) -> bool:
+    """a concat_rows operand that is a convert_records to block form: its SQL ends with its own ORDER BY"""
+    return any(type(n).__name__ == "ConcatRowsNode" and any(type(s).__name__ == "ConvertRecordsNode" and s.record_map.blocks_out is not None for s in n.sources) for n in _walk(ops))
+
+
 def _run_raw(names, data, sqls):
     """execute SQL texts on a fresh library-prepared SQLite connection holding `data` -> [outcome]"""
     import data_algebra.SQLite
@@ -486,6 +491,11 @@ def classify(case, ops, res, usable=()) -> Dict[str, List[str]]:
             keys["%s:sql_model.SQLModel.extend_to_near_sql:extend-over-column-trimmed-window-extend" % PID] = ["[allow_extend_merges=True: KeyError; allow_extend_merges=False: SQL generated] %s" % first]
             continue
         # use_with=False inlines an ORDER BY .. LIMIT operand of concat_rows into the UNION ALL: SQLite rejects the text
+        if kind == "result" and all("use_with=False" in vn for vn in vns) and "should come after UNION ALL" in first and _concat_of_unpivot(ops) and not _concat_of_ordered(ops):
+            n_without = sum(1 for v in variants() if not v["use_with"])
+            if len(set(vns)) == n_without:
+                keys["%s:sql_model.SQLModel.nearsqlbinary_to_sql_str_list_:unpivot-concat-operand-inlined-without-with" % PID] = ["[all %d option sets with use_with=False] %s" % (n_without, first)]
+                continue
         if kind == "result" and all("use_with=False" in vn for vn in vns) and "should come after UNION ALL" in first and _concat_of_ordered(ops):
             n_without = sum(1 for v in variants() if not v["use_with"])
             if len(set(vns)) == n_without:
